@@ -107,6 +107,15 @@ def Reduction.isAverage : Reduction → Bool
 
 def ratLe (a b : Rat) : Bool := decide (a ≤ b)
 
+def insertRat (a : Rat) : List Rat → List Rat
+  | [] => [a]
+  | b :: bs => if ratLe a b then a :: b :: bs else b :: insertRat a bs
+
+/-- ascending sort (insertion sort; `np.median` partitions, the result is the same multiset order statistics) -/
+def sortRat : List Rat → List Rat
+  | [] => []
+  | a :: as => insertRat a (sortRat as)
+
 /-- `None` stands for the numpy error / nan on an empty array (a dimension of size 0). -/
 def reduce (m : Reduction) (xs : List Rat) : Option Rat :=
   match xs with
@@ -118,7 +127,7 @@ def reduce (m : Reduction) (xs : List Rat) : Option Rat :=
     | .min => some (rest.foldl (fun a b => if ratLe b a then b else a) x)
     | .max => some (rest.foldl (fun a b => if ratLe a b then b else a) x)
     | .median =>
-      let s := (x :: rest).mergeSort ratLe
+      let s := sortRat (x :: rest)
       let n := s.length
       if n % 2 = 1 then s[n / 2]? else
         match s[n / 2 - 1]?, s[n / 2]? with
@@ -179,11 +188,14 @@ def dataRow {Obj : Type} [DecidableEq Obj] (chans : List (Chan Obj)) (S : List O
   | .error e => .error e
   | .ok cols => .ok (rowLine w cols)
 
+/-- `len(frame_array.x_axis)` (raises for a frame array without channels; 0 here) -/
+def numFrames {Obj : Type} (chans : List (Chan Obj)) : Nat :=
+  match chans with | [] => 0 | x :: _ => x.frames.length
+
 /-- `write_array_section_data_to_las`: `for frame_number in range(len(frame_array.x_axis))` -/
 def dataRows {Obj : Type} [DecidableEq Obj] (chans : List (Chan Obj)) (S : List Obj) (red : Reduction) (w d : Nat) :
     Except Err (List (List Char)) :=
   let S2 := addXAxis (chans.map (·.ident)) S
-  let n := match chans with | [] => 0 | x :: _ => x.frames.length
-  mapE (dataRow chans S2 red w d) (List.range n)
+  mapE (dataRow chans S2 red w d) (List.range (numFrames chans))
 
 end TD.C10
